@@ -674,6 +674,8 @@ def select__index_of(self: XPathFunction, context: ta.ContextType = None) -> Ite
         for pos, result in enumerate(self[0].atomization(context), start=1):
             if isinstance(result, UntypedAtomic):
                 result = str(result.value)
+            if isinstance(result, bool) is not isinstance(value, bool):
+                continue  # xs:boolean is not comparable with numbers (True == 1 in Python)
             if manager.eq(result, value):
                 yield pos
 
